@@ -127,6 +127,9 @@ class C09(Check):
                 out.append(dict(fault=fault, pos="-", source=source, mode="centres"))
         for fault in DIR_FAULTS:
             out.append(dict(fault=fault, pos="-", source="dataframe", mode="centres"))
+        # fault-free controls whose last chunk holds fewer records than there are workers
+        out.append(dict(fault="none", pos="short_tail", source="dataframe", mode="centres"))
+        out.append(dict(fault="none", pos="short_tail", source="dataframe" if q else "hdf5", mode="index"))
         if not q:
             out.append(dict(fault="none", pos="-", source="hdf5", mode="index"))
             out.append(dict(fault="none", pos="-", source="random", mode="centres"))
@@ -171,6 +174,8 @@ class C09(Check):
         fault, pos, source, mode = case["fault"], case["pos"], case["source"], case["mode"]
         work.mkdir(parents=True)
         cols = make_input(np.random.default_rng([case["seed"], 99]))
+        if pos == "short_tail":
+            cols = {k: v[: 3 * CHUNK + 1] for k, v in cols.items()}
         n = len(cols["ra"])
         chunk = CHUNK if pos != "only" else 10 * n
         row = POS.get(pos, 130)
